@@ -484,6 +484,19 @@ class Check:
                 "harness crate pvh (serialisers), python generators and canonicalisation in pv/",
             ] + list(extra_trusted),
             translator_status=st, audit=bad)
+        if ok and self.tier == "thorough":
+            # the independent checker re-checks the compiled property file and everything it depends on
+            t0 = time.time()
+            p = sh(["coqchk", "-o", "-silent", "-Q", "theories", "PV", "PV.Props." + self.prop], cwd=COQ, timeout=3000)
+            txt = (p.stdout + p.stderr).decode(errors="replace")
+            m = re.search(r"\* Axioms:\s*(.*?)\n\s*\n", txt, re.S)
+            ax = re.sub(r"\s+", " ", m.group(1)).strip() if m else "?"
+            self.coverage["coqchk"] = dict(exit=p.returncode, axioms=ax, seconds=round(time.time() - t0, 1),
+                                           type_in_type="<none>" in txt.split("type-in-type:")[-1][:40] if "type-in-type:" in txt else None)
+            self.log("coqchk: exit %d, axioms: %s (%.0f s)" % (p.returncode, ax, time.time() - t0))
+            if p.returncode != 0 or ax != "<none>":
+                ok = False
+                r["ok"] = False; r["output"] = "coqchk: exit %d, axioms %s\n%s" % (p.returncode, ax, txt[-2500:])
         if not r["ok"]:
             self.log("PROOF FAILED\n" + r["output"][-3000:])
             self.proof_output = r["output"]
